@@ -44,7 +44,7 @@ func genTokValue(t *rapid.T) string {
 		n = rapid.IntRange(1, 12).Draw(t, "short_len")
 	}
 	mode := rapid.IntRange(0, 3).Draw(t, "charmode")
-	if n <= 12 && rapid.IntRange(0, 11).Draw(t, "invalid_utf8") == 0 {
+	if n <= 12 && rapid.IntRange(0, 39).Draw(t, "invalid_utf8") == 0 {
 		// words from a Latin-1 file, say: bytes that are not valid UTF-8 (one character each)
 		var b strings.Builder
 		for i := 0; i < n; i++ {
@@ -126,6 +126,15 @@ func construct(toks []oracle.Tok, ent float32) (spg.Password, error) {
 	return p, nil
 }
 
+type tokView struct {
+	ts      spg.Tokens
+	str     string
+	Entropy float32
+}
+
+func (v *tokView) Tokens() spg.Tokens { return v.ts }
+func (v *tokView) String() string     { return v.str }
+
 // decoys are other passwords whose indices are built between MakeIndices and Tokenize.
 var decoys = func() []spg.Password {
 	var out []spg.Password
@@ -143,6 +152,13 @@ var decoys = func() []spg.Password {
 }()
 
 func roundTrip(p *spg.Password, mustEncode bool) error {
+	return roundTripTokens(p.Tokens(), p.String(), p.Entropy, mustEncode)
+}
+
+// roundTripTokens works on any token sequence obtainable through the public
+// API (Tokens is a slice type: sequences can be appended and sliced).
+func roundTripTokens(ts spg.Tokens, str string, entropy float32, mustEncode bool) error {
+	p := &tokView{ts, str, entropy}
 	toks := toToks(p.Tokens())
 	if len(toks) == 0 {
 		return &ev.Skip{Why: "empty token sequence (outside MakeIndices' domain)"}
@@ -247,6 +263,9 @@ func c11RunToks(c c11Case) error {
 }
 
 func c11RunRecipe(c c11Case) error {
+	if c.WL != nil && len(c.Toks) > 0 {
+		return c11RunConcat(c)
+	}
 	tp := tape.FromWords(c.Script, c.TapeKey)
 	var o outcome
 	mustEncode := true
@@ -276,6 +295,42 @@ func c11RunRecipe(c c11Case) error {
 	return roundTrip(o.Pw, mustEncode)
 }
 
+// c11RunConcat: a constructed token sequence with the tokens of a generated
+// (possibly over-long) passphrase spliced in at a drawn position.
+func c11RunConcat(c c11Case) error {
+	a, err := construct(c.Toks, c.Entropy)
+	if err != nil {
+		return err
+	}
+	r, _, err := buildWL(*c.WL)
+	if err != nil {
+		return &ev.Skip{Why: "empty list"}
+	}
+	o := callRaw(tape.FromWords(c.Script, c.TapeKey), r.Generate)
+	if o.Pw == nil {
+		return &ev.Skip{Why: "not generated"}
+	}
+	at := int(c.TapeKey % uint64(len(c.Toks)+1))
+	var ts spg.Tokens
+	ts = append(ts, a.Tokens()[:at]...)
+	ts = append(ts, o.Pw.Tokens()...)
+	ts = append(ts, a.Tokens()[at:]...)
+	str := ""
+	must := true
+	for _, t := range ts {
+		str += t.Value()
+		if n := oracle.NChars(t.Value()); n > 255 || n < 1 {
+			must = false
+		}
+	}
+	if !must {
+		ev.Class("spliced_token>255_chars")
+	}
+	c11Classify(toToks(ts))
+	ev.Class("spliced_sequences")
+	return roundTripTokens(ts, str, c.Entropy, must)
+}
+
 var longWords = []string{strings.Repeat("x", 256), strings.Repeat("é", 255), strings.Repeat("é", 256), strings.Repeat("ab", 300), strings.Repeat("正", 128), strings.Repeat("y", 255)}
 
 func TestC11(t *testing.T) {
@@ -289,12 +344,16 @@ func TestC11(t *testing.T) {
 			s := gen.CharSpec(t, gen.CharOpts{MaxLen: 40, MaxReq: 2})
 			c.Char = &s
 		case 1:
-			w := gen.WL(t, gen.WLOpts{List: gen.WordListOpts{Min: 1, Max: 8}, MaxLen: 6, UnknownCap: true})
+			w := gen.WL(t, gen.WLOpts{List: gen.WordListOpts{Min: 1, Max: 8}, MaxLen: 6, UnknownCap: true, AllowScript: true})
 			n := rapid.IntRange(1, 2).Draw(t, "nlong")
 			for i := 0; i < n; i++ {
 				w.Words = append(w.Words, rapid.SampledFrom(longWords).Draw(t, "longword"))
 			}
 			c.WL = &w
+			if rapid.Bool().Draw(t, "splice") {
+				c.Toks = genToks(t)
+				c.Entropy = 3
+			}
 		default:
 			w := gen.WL(t, gen.WLOpts{List: gen.WordListOpts{Min: 1, Max: 8}, MaxLen: 8, UnknownCap: true})
 			c.WL = &w
